@@ -322,6 +322,30 @@ var c11Injectors = []c11Injector{
 		ms.Mods = append(ms.Mods, x)
 		return true
 	}},
+	// two submodules of one module that share groupings: the groupings of the submodules are expanded one
+	// submodule after the other, and the first visitor of a shared grouping must not decide its meaning
+	{"groupings-shared-by-two-submodules-nested-scope", false, func(r *core.Rng, ms *yang.ModSet) bool {
+		m := modA(ms)
+		bt := func() *yang.Stmt { return yang.S("belongs-to", m.Arg, yang.S("prefix", pfx(m))) }
+		s1 := yang.S("submodule", "shs-1", bt(), yang.S("include", "shs-2"), yang.S("grouping", "shs-user", yang.S("uses", "shs-mid")))
+		s2 := yang.S("submodule", "shs-2", bt(),
+			yang.S("grouping", "shs-outer", yang.S("grouping", "shs-inner", yang.S("leaf", "x", yang.S("type", "string"))), yang.S("uses", "shs-inner")),
+			yang.S("grouping", "shs-mid", yang.S("uses", "shs-outer")))
+		addBody(m, yang.S("include", "shs-1"), yang.S("include", "shs-2"))
+		ms.Mods = append(ms.Mods, s1, s2)
+		return true
+	}},
+	{"groupings-shared-by-two-submodules-status", false, func(r *core.Rng, ms *yang.ModSet) bool {
+		m := modA(ms)
+		bt := func() *yang.Stmt { return yang.S("belongs-to", m.Arg, yang.S("prefix", pfx(m))) }
+		s1 := yang.S("submodule", "shs-1", bt(), yang.S("include", "shs-2"), yang.S("grouping", "shs-user", yang.S("status", "deprecated"), yang.S("uses", "shs-mid")))
+		s2 := yang.S("submodule", "shs-2", bt(),
+			yang.S("grouping", "shs-mid", yang.S("uses", "shs-outer")),
+			yang.S("grouping", "shs-outer", yang.S("status", "deprecated"), yang.S("leaf", "x", yang.S("type", "string"))))
+		addBody(m, yang.S("include", "shs-1"), yang.S("include", "shs-2"))
+		ms.Mods = append(ms.Mods, s1, s2)
+		return true
+	}},
 	{"unknown-prefix-in-type", false, func(r *core.Rng, ms *yang.ModSet) bool {
 		addBody(modA(ms), yang.S("leaf", "dl", yang.S("type", "nopfx:t")))
 		return true
